@@ -142,6 +142,7 @@ def main():
     ap.add_argument("--replay", default="")
     ap.add_argument("--replay-results", default="SURVIVED")
     ap.add_argument("--out", default="")
+    ap.add_argument("--skip-suite", action="store_true", help="replay only: the suite verdict is already recorded")
     a = ap.parse_args()
     w = os.path.join(a.work, "w%d" % a.worker)
     repo = os.path.join(w, "repo")
@@ -150,6 +151,8 @@ def main():
     if not os.path.isdir(repo):
         subprocess.check_call(["git", "-C", "/repo", "worktree", "add", "--detach", repo, "HEAD"], stdout=subprocess.DEVNULL)
     subprocess.check_call(["git", "-C", repo, "checkout", "-q", "--", "."])
+    subprocess.check_call(["git", "-C", repo, "checkout", "-q", "--detach",
+                           subprocess.check_output(["git", "-C", "/repo", "rev-parse", "HEAD"], text=True).strip()])
     subprocess.check_call(["rsync", "-a", "--delete", "--exclude", ".git", "--exclude", "bin", "--exclude", "replays",
                            "--exclude", "seeded", "--exclude", "evidence", "/verif/", verif + "/"])
     os.makedirs(os.path.join(verif, "evidence"), exist_ok=True)
@@ -215,7 +218,7 @@ def main():
             if rc != 0:
                 rec["result"] = "nocompile"
             else:
-                rc, o, t = sh(["/verif/tools/baseline.sh", repo], repo, 1500)
+                rc, o, t = (0, "", 0) if a.skip_suite else sh(["/verif/tools/baseline.sh", repo], repo, 1500)
                 rec["suite_s"] = round(t)
                 if rc != 0:
                     rec["result"] = "suite"
